@@ -1,7 +1,7 @@
 (* C17 property theorems. Nothing but statements closed by `exact lemma` and Print Assumptions. *)
 From Coq Require Import NArith List Bool.
 From OG Require Import C17.Model C17.Proofs C17.Refine C17.Corr C17.Scope C17.Gen_Consts C17.Crash.
-From OG Require Import C17.Inv C17.Search C17.Read C17.Step C17.SaveStep C17.ZeroSlots C17.Fault C17.Tear.
+From OG Require Import C17.Inv C17.Search C17.Read C17.Step C17.SaveStep C17.ZeroSlots C17.Fault C17.Tear C17.Bytes.
 Import ListNotations.
 Open Scope N_scope.
 
@@ -167,7 +167,7 @@ Theorem C17_refines_prefix_fill : forall (P : params) (ops : list sop),
   valid_spec P ops (map r_first out) empty_alog ->
   out = outputs_spec ops (map r_first out) empty_alog
   /\ abs (run_disk VRepaired P ops (empty_disk P)) = run_spec ops (map r_first out) empty_alog.
-Proof. intros P ops HP. exact (refines_from P HP ops (empty_disk P) 1 [] (empty_disk_inv P)). Qed.
+Proof. intros P ops HP. exact (refines_from P HP ops (empty_disk P) 1 [] (empty_disk_inv P) (empty_disk_sd P)). Qed.
 Print Assumptions C17_refines_prefix_fill.
 
 (* the hypotheses are satisfiable: a history with rotation (4 slots per file), a conflict into the rotated file, a
@@ -199,7 +199,7 @@ Theorem C17_step_refines : forall P, wf_params P = true -> forall o d i0 Ac,
 Proof. exact step_all_z. Qed.
 Print Assumptions C17_step_refines.
 Theorem C17_step_refines_prefix_fill : forall P, wf_params P = true -> forall o d i0 Ac,
-  dinv P i0 d Ac -> valid_op P o (abs d) -> step_ok P o d.
+  dinv P i0 d Ac -> Sd d -> valid_op P o (abs d) -> step_ok P o d /\ Sd (fst (step_disk VRepaired P o d)).
 Proof. exact step_all. Qed.
 
 (* ZeroSlots(lo, hi) with hi at or beyond the written part of a file keeps exactly the live rows below lo - slot
@@ -234,19 +234,18 @@ Theorem C17_failed_save_log : forall P, wf_params P = true -> forall d i0 Ac e0 
 Proof. exact failed_save_log. Qed.
 Print Assumptions C17_failed_save_log.
 
-(* ... and the caller's retry (RaftNode.SaveToStorage repeats the Save until it succeeds): the failure state satisfies
-   the invariant again (so every theorem above applies to reads issued before the retry), the same batch is a valid
-   Save in it, and saving it again yields exactly the answer and the abstract state of the specification's Save on
-   the state before the failure. Proved for [settled] failure states: the current file holds an entry or there is no
-   other file. Not settled (outside the invariant, which ties an empty current file to an empty log): the failed write
-   was the first one into a file just created by a rotation, or nothing of the batch is visible yet and the first new
-   index is the first index of a file that is not the oldest; those states are covered by the finite exploration
-   below and by the fault cases of the correspondence harness. *)
+(* ... and the caller's retry (RaftNode.SaveToStorage repeats the Save until it succeeds): EVERY failure state satisfies
+   the invariant again (so every theorem above - reads, snapshots, prefix deletion, reopen - applies to operations issued
+   before the retry, or to a restart instead of it), the same batch is a valid Save in it, and saving it again yields
+   exactly the answer and the abstract state of the specification's Save on the state before the failure. The invariant
+   covers the two shapes a failure can leave that no successful operation produces: an empty current file beside older
+   files (the first write into a file just created by a rotation failed; or nothing of the batch is visible and the
+   first new index is the first index of a file that is not the oldest). *)
 Theorem C17_failed_save_retry : forall P, wf_params P = true -> forall d i0 Ac e0 r h s ft,
   dinvz P i0 d Ac -> valid_batch P e0 r (log_of d) ->
   let es := e0 :: r in
   let res := save_fail VZeroSlots P es h s ft d in
-  fst res = true -> settled (snd res) ->
+  fst res = true ->
   (exists i1 Ac1, dinvz P i1 (snd res) Ac1)
   /\ valid_op P (Save es h s) (abs (snd res))
   /\ step_spec (Save es h s) 0 (abs (snd res)) = step_spec (Save es h s) 0 (abs d)
@@ -262,7 +261,6 @@ Print Assumptions C17_failed_save_retry.
 Theorem C17_crash_in_loop_then_reopen : forall P, wf_params P = true -> forall d i0 Ac e0 r h s j rot,
   dinvz P i0 d Ac -> valid_batch P e0 r (log_of d) -> (j < length (e0 :: r))%nat ->
   let d1 := snd (save_fail VZeroSlots P (e0 :: r) h s (FEntry j rot) d) in
-  settled d1 ->
   let d2 := reopen P d1 in
   abs d2 = mkalog (drop_below (disk_first d2) (below_idx (e_index e0) (log_of d) ++ firstn j (e0 :: r))) (d_meta d)
   /\ exists i2 Ac2, dinvz P i2 d2 Ac2.
@@ -277,10 +275,10 @@ Definition fault_es := seg 3 2 2 0 6 50.
 Example C17_failed_save_hyp_satisfiable :
   length (d_files fault_d) = 2%nat
   /\ map (fun ft => fst (save_fail VZeroSlots demo_params fault_es (Some (mkhs 2 2 4)) (Some (mksnap 2 1 (Some [1]) 9)) ft fault_d))
-         [FClear; FEntry 0 false; FEntry 1 true; FHs; FSnap; FEntry 2 false]
+         [FClear 0; FEntry 0 false; FEntry 1 true; FHs; FSnap; FEntry 2 false]
      = [true; true; true; true; true; false]
   /\ map (fun ft => map e_index (a_ents (abs (snd (save_fail VZeroSlots demo_params fault_es (Some (mkhs 2 2 4)) None ft fault_d)))))
-         [FClear; FEntry 0 false; FEntry 1 true; FHs]
+         [FClear 0; FEntry 0 false; FEntry 1 true; FHs]
      = [[1; 2; 3; 4]; [1; 2]; [1; 2; 3]; [1; 2; 3; 4]].
 Proof. vm_compute. repeat split. Qed.
 
@@ -292,7 +290,7 @@ Proof. vm_compute. repeat split. Qed.
    fail this check. Depth 3 (74 060 reported faults) runs in the thorough tier. *)
 Example C17_faults_small_scope : explore_f VZeroSlots tiny_params 2 (empty_disk tiny_params) empty_alog = true.
 Proof. vm_compute. reflexivity. Qed.
-Example C17_faults_small_scope_size : count_faults VZeroSlots tiny_params 2 (empty_disk tiny_params) empty_alog = 4445.
+Example C17_faults_small_scope_size : count_faults VZeroSlots tiny_params 2 (empty_disk tiny_params) empty_alog = 4805.
 Proof. vm_compute. reflexivity. Qed.
 Example C17_faults_small_scope_rejects_prefix_fill : explore_f VRepaired tiny_params 2 (empty_disk tiny_params) empty_alog = false.
 Proof. vm_compute. reflexivity. Qed.
@@ -355,3 +353,30 @@ Theorem C17_meta_one_write_atomic : forall old new k,
   mcrash k (snap_writes_repaired new) old = old \/ mcrash k (snap_writes_repaired new) old = new.
 Proof. exact meta_one_write_atomic. Qed.
 Print Assumptions C17_meta_one_write_atomic.
+
+(* ================================================================================================================ *)
+(* THE BYTE LAYER (Bytes.v). The model speaks of slot records and length-prefixed records; these are their bytes in the
+   files, and reading the bytes back gives the records. The correspondence compares [window_bytes] / [hs_record] /
+   [snap_header] of the model state with the bytes of the real files on every run (Corr.check_bytes), so the refinement
+   statements above are statements about file contents. *)
+
+(* a slot record: 4 big-endian uint64 (term, index, type, offset) *)
+Theorem C17_slot_bytes_round : forall s rest, slot_u64 s -> slot_of_bytes (slot_bytes s ++ rest) = s.
+Proof. exact slot_round. Qed.
+(* the slot table of a file, read back 32 bytes at a time, is the model's slot table *)
+Theorem C17_table_bytes_round : forall f n, (forall p, slot_u64 (slot_at f p)) ->
+  map slot_of_bytes (chunks32 n (table_bytes f n)) = map (fun p => slot_at f (N.of_nat p)) (seq 0 n).
+Proof. exact table_round. Qed.
+(* protobuf varints (up to 70 bits, uint64 included) and length-prefixed records *)
+Theorem C17_varint_round : forall fuel x rest, x < 128 ^ N.of_nat (S fuel) ->
+  varint_dec (varint_enc (S fuel) x ++ rest) = Some (x, rest).
+Proof. exact varint_round. Qed.
+Theorem C17_lp_record_round : forall payload rest, N.of_nat (length payload) < 256 ^ 4 -> lp_read (lp_record payload ++ rest) = payload.
+Proof. exact lp_round. Qed.
+(* the hard state record at offset 512 of raft.meta: [len:4] + raftpb.HardState.Marshal; whatever follows it in the file,
+   reading the record and parsing it gives the hard state back *)
+Theorem C17_hs_record_round : forall h rest, u64 (hs_term h) -> u64 (hs_vote h) -> u64 (hs_commit h) -> hs_is_empty h = false ->
+  hs_of_pb (lp_read (hs_record h ++ rest)) = Some h.
+Proof. exact hs_record_round. Qed.
+Print Assumptions C17_hs_record_round.
+Print Assumptions C17_table_bytes_round.
